@@ -278,11 +278,19 @@ def c03_leg(chk, tier, seed):
     toolrun.anchor()
     prof = dict(out_structs=True, owned_slices=True, callbacks=True, opt_owned=True)
 
+    ncpp = 200 if thorough else 20
+
     def one(i):
+        if i >= nprog:
+            # the same histories through the C++ owning wrappers (unique_ptr, std::function with destructor, std::optional)
+            r = run_cpp_program(seed + 7500, i - nprog, "c03cpp", profile=prof, ncalls=45, stds=("c++17",))
+            r["lang"] = "cpp"
+            return r
         r = run_c_program(seed + 7000, i, "c03", profile=prof, ncalls=45, valgrind=(i < (60 if thorough else 4)), keep=False)
+        r["lang"] = "c"
         return r
-    results = pmap(one, range(nprog))
-    stats = {"programs": 0, "calls": 0, "objects_tracked": 0, "callbacks_released": 0, "skipped": 0}
+    results = pmap(one, range(nprog + ncpp))
+    stats = {"programs": 0, "programs_cpp": 0, "calls": 0, "objects_tracked": 0, "callbacks_released": 0, "skipped": 0}
     hist = set()
     for r in results:
         if r["status"] == "skip":
@@ -292,6 +300,7 @@ def c03_leg(chk, tier, seed):
             chk.inconc("api p%d: %s" % (r["idx"], r.get("detail")))
             continue
         stats["programs"] += 1
+        stats["programs_cpp"] += 1 if r.get("lang") == "cpp" else 0
         stats["calls"] += r["calls"]
         got = r.get("observed_lines") or []
         errs, nobj, ncb = conservation(got)
@@ -300,7 +309,7 @@ def c03_leg(chk, tier, seed):
         hist.add("".join({"C": "c", "N": "n", "D": "d", "R": "r"}.get(l[:1], "") for l in got if l[:4] in ("CALL", "NEW ", "DROP", "CBDR")))
         mem = [x for x in (r.get("reports") or []) if any(w in x for w in ("double-free", "use-after", "overflow", "leak", "free", "Invalid", "bytes in", "bad-free", "alloc-dealloc"))]
         if errs or mem:
-            chk.violation("api-p%d" % r["idx"], "generated-API history p%d: %s" % (r["idx"], (errs + mem)[0]),
+            chk.violation("api-%s-p%d" % (r.get("lang"), r["idx"]), "generated-%s-API history p%d: %s" % (r.get("lang", "c").upper(), r["idx"], (errs + mem)[0]),
                           dict(witness(r), conservation_errors=errs[:10], memory_reports=mem))
         elif r["status"] == "violation" and r.get("stage") == "run" and (r.get("rc") not in (0, None)) and not r.get("diff"):
             chk.violation("api-p%d" % r["idx"], "driver p%d aborted: %s" % (r["idx"], str(r.get("reports"))[:200]), witness(r))
